@@ -143,7 +143,8 @@ func checkC07(env *fw.Env, c C07Case) *fw.Failure {
 					return fw.Failf("", "BatchCheck item %s Check(%s): batch error=%v, standalone error=%v\n%s", it.ID, it.Req, berr, e, semkit.Describe(c.World))
 				}
 			} else if e == nil && a != out.Allowed {
-				return fw.Failf("", "BatchCheck item %s Check(%s): batch answered %v, standalone Check %v (reference %v)\n%s", it.ID, it.Req, out.Allowed, a, exp, semkit.Describe(c.World))
+				// the batch answer satisfied the reference above, so the standalone Check is the side that deviates
+				return fw.Failf(semkit.ClassifyCheck(c.World, it.Req, exp, a, e), "BatchCheck item %s Check(%s): batch answered %v, standalone Check %v (reference %v)\n%s", it.ID, it.Req, out.Allowed, a, exp, semkit.Describe(c.World))
 			}
 			k := it.Req.Object + "#" + it.Req.Relation + "@" + it.Req.User
 			if byKeyOutcome[k] == nil {
@@ -170,6 +171,54 @@ func checkC07(env *fw.Env, c C07Case) *fw.Failure {
 			classes = append(classes, "semantic-duplicates")
 		}
 		_ = refsem.True
+	}
+	// A write that grants the first denied item directly, then the same batch with HIGHER_CONSISTENCY
+	// on the caching server (its cache now holds the answers from before the write): every item must
+	// answer for the store as it is now, like a standalone HIGHER_CONSISTENCY Check does.
+	for _, it := range c.Items {
+		g := m.Tuple{Object: it.Req.Object, Relation: it.Req.Relation, User: it.Req.User}
+		if exp, unk := semkit.RefCheck(c.World, it.Req); exp != refsem.False || unk || len(it.Req.Contextual) > 0 ||
+			refsem.ValidForRead(c.World.Model, g) != refsem.OK || g.User == g.Object+"#"+g.Relation || inLeft(c.World.Left, g) {
+			continue
+		}
+		// (a contextual tuple with the same key as a stored one shadows it: keep the keys disjoint)
+		shadowed := false
+		for _, other := range c.Items {
+			for _, ct := range other.Req.Contextual {
+				shadowed = shadowed || ct.Key() == g.Key()
+			}
+		}
+		if shadowed {
+			continue
+		}
+		srv := batchCachedServer()
+		if err := srv.WriteAPI(storeID, modelID, []m.Tuple{g}); err != nil {
+			break
+		}
+		after := gen.World{Model: c.World.Model, Tuples: append(append([]m.Tuple{}, c.World.Tuples...), g), Left: c.World.Left}
+		res, err := srv.BatchCheck(ctx, storeID, modelID, c.Items, openfgav1.ConsistencyPreference_HIGHER_CONSISTENCY)
+		if err != nil {
+			return fw.Failf("", "BatchCheck (HIGHER_CONSISTENCY) of %d valid items failed as a whole: %v", len(c.Items), err)
+		}
+		for _, it2 := range c.Items {
+			out := res[it2.ID]
+			var berr error
+			if out.Err != "" {
+				berr = fmt.Errorf("%s", out.Err)
+			}
+			if berr != nil && semkit.IsTooComplex(berr) {
+				continue
+			}
+			exp2, unk2 := semkit.RefCheck(after, it2.Req)
+			if ok, why := semkit.CompareCheck(exp2, unk2, out.Allowed, berr); !ok {
+				if sig := semkit.ClassifyCheck(after, it2.Req, exp2, out.Allowed, berr); sig != "" {
+					return fw.Failf(sig, "BatchCheck (HIGHER_CONSISTENCY) item %s Check(%s): %s", it2.ID, it2.Req, why)
+				}
+				return fw.Failf("", "after writing %s, BatchCheck with HIGHER_CONSISTENCY on the caching server, item %s Check(%s): %s\n%s", g, it2.ID, it2.Req, why, semkit.Describe(after))
+			}
+		}
+		classes = append(classes, "higher-consistency-batch-after-answer-flipping-write")
+		break
 	}
 	has := func(cl string) bool {
 		for _, x := range classes {
